@@ -54,9 +54,30 @@ def _mentions(node: ast.AST, roots: set[str]) -> bool:
     return s in roots
 
 
+PIPES = {"zip", "map", "filter", "enumerate", "chain", "islice", "iter", "reversed", "zip_longest", "starmap"}
+
+
 def _forcing_exprs(scope: ast.AST, rowvals: set[str], forcing: set[str]) -> list[ast.AST]:
     out: list[ast.AST] = []
+    # locals bound to a generator over the rows are the rows, consumed wherever the local is consumed
+    lazy_names = {
+        t.id
+        for s in walk_no_nested_defs(scope)
+        if isinstance(s, ast.Assign) and isinstance(s.value, ast.GeneratorExp) and _mentions(s.value.generators[0].iter, rowvals)
+        for t in s.targets
+        if isinstance(t, ast.Name)
+    }
+
+    def _row_source(e: ast.AST) -> bool:
+        return _mentions(e, rowvals) or (isinstance(e, ast.Name) and e.id in lazy_names) or (isinstance(e, ast.GeneratorExp) and _mentions(e.generators[0].iter, rowvals))
+
     for n in walk_no_nested_defs(scope):
+        if isinstance(n, ast.Call) and isinstance(n.func, ast.Name) and n.func.id in EXHAUSTING and n.args and isinstance(n.args[0], ast.Call) and call_attr(n.args[0]) in PIPES:
+            # dict(zip(keys, self)), list(map(f, self)), ...: every row source fed into the pipe is iterated
+            for a in n.args[0].args:
+                if _row_source(a):
+                    out.append(a)
+            continue
         if isinstance(n, (ast.For,)) and _mentions(n.iter, rowvals):
             out.append(n)
         elif isinstance(n, (ast.ListComp, ast.SetComp, ast.DictComp, ast.GeneratorExp)):
